@@ -12,7 +12,7 @@ using namespace vf;
 static const size_t SZMAX = (size_t)-1;
 static size_t pick_size(Tape &t) {
   switch (t.weighted({10, 2, 1, 1, 1, 1, 1, 1, 1})) {
-    case 8: return t.coin() ? 70000 + t.below(3) : 200000 + t.below(70000);  // large blocks: shrinking them crosses any "slack" threshold
+    case 8: return t.chance(1, 3) ? 70000 + t.below(3) : t.coin() ? 200000 + t.below(70000) : (size_t)(1u << 20) + t.below(1u << 20);  // up to 2 MiB  // large blocks: shrinking them crosses any "slack" threshold
     case 0: return t.below(65);
     case 1: return 4096 + t.below(3);
     case 2: return 0;
